@@ -83,7 +83,10 @@ Proof.
       repeat split; assumption.
     + destruct v1 as [s1 x1|ov vp vm|]; try discriminate.
       * destruct s1; discriminate.
-      * destruct (m_lock dm); [discriminate|]. inv H. cbn [r_f r_obj].
+      * assert (Hr : r' = mkAcc A (r_obj A r1) (r_meta A r1) (fset A (r_f A r1) k (NonT od vp dm))).
+        { destruct (match ov, od with New, _ => true | Old b, Old a => Z.eqb a b | _, _ => false end); [now inv H|].
+          destruct (m_lock dm); [discriminate|now inv H]. }
+        subst r'. cbn [r_f r_obj].
         destruct (Hplain (NonT od vp dm)) as [P1 P2]. { rewrite <- Ev. reflexivity. }
         repeat split; assumption.
     + destruct v1 as [| |ov vm vf]; try discriminate.
@@ -95,89 +98,20 @@ Proof.
 Qed.
 
 
-(* ------------------------------------------------------------------ kinds of the entries are never changed by a write in place *)
-Definition kget (f : forest) (k : string) : option kind := option_map (kind_of A) (fget A f k).
-
-Lemma kget_rename : forall (f : forest) ns k, kget (f_rename A ns f) k = kget f k.
-Proof.
-  unfold kget. induction f as [|k' t r IH]; intros ns k; cbn [f_rename fget]; [reflexivity|].
-  destruct (String.eqb k k'); [|apply IH]. destruct t; reflexivity.
-Qed.
-Lemma kget_set_dev d : forall (f : forest) k, kget (f_set_dev A d f) k = kget f k.
-Proof.
-  unfold kget. induction f as [|k' t r IH]; intro k; cbn [f_set_dev fget]; [reflexivity|].
-  destruct (String.eqb k k'); [|apply IH]. destruct t; reflexivity.
-Qed.
-Lemma kget_fset : forall (f : forest) k v k', kget (fset A f k v) k' = if String.eqb k' k then (if kget f k then Some (kind_of A v) else Some (kind_of A v)) else kget f k'.
-Proof.
-  unfold kget. intros f k v k'. destruct (String.eqb k' k) eqn:E.
-  - apply String.eqb_eq in E. subst k'. destruct (option_map (kind_of A) (fget A f k)); clear.
-    all: induction f as [|k0 t r IH]; cbn [fset fget]; [now rewrite String.eqb_refl|];
-      destruct (String.eqb k k0) eqn:E0; cbn [fget]; rewrite E0; [reflexivity|exact IH].
-  - apply String.eqb_neq in E. now rewrite fget_fset_other.
-Qed.
-
-Lemma validate_kget (r : racc) (v : tree) r' v' : validate A r v = Ok (r', v') -> forall k, kget (r_f A r') k = kget (r_f A r) k.
-Proof.
-  unfold validate. destruct (meta_of A v) as [vm0|]. 2:{ intro H. inv H. reflexivity. }
-  intro H. apply bind_ok in H. destruct H as (v1 & _ & H).
-  destruct (nil_b (m_bs (r_meta A r))). { inv H. reflexivity. }
-  match type of H with match meta_of A ?x with _ => _ end = _ => destruct (meta_of A x) as [vm|] end. 2:{ inv H. reflexivity. }
-  destruct (m_names (r_meta A r)) as [pn|].
-  - destruct (list_eqb ostr_eqb (firstn_names (List.length (m_bs (r_meta A r))) vm) pn). { inv H. reflexivity. }
-    destruct (negb (refine_ok (names_list vm) pn)); [discriminate|].
-    destruct (negb (Nat.eqb (List.length pn) (List.length (m_bs vm)))); [discriminate|]. inv H. reflexivity.
-  - destruct (m_names vm); inv H; [|reflexivity]. intro k. cbn [r_f]. apply kget_rename.
-Qed.
-
-(* in place: the entry under the key keeps its kind; a non-tensor entry stays a non-tensor entry *)
-Lemma set_item_kind (r : racc) k (v : tree) r' :
-  set_item A o r k v = Ok r' ->
-  (forall k', k' <> k -> kget (r_f A r') k' = kget (r_f A r) k')
-  /\ (o_inplace o = true -> forall d, fget A (r_f A r) k = Some d ->
-        kget (r_f A r') k = Some (kind_of A d) /\ (kind_of A d = KNonT -> erase_t v = SNonT A)).
-Proof.
-  unfold set_item. intro H. apply bind_ok in H. destruct H as ([r1 v1] & Hv & H).
-  assert (Hk : forall kk, kget (r_f A r1) kk = kget (r_f A r) kk).
-  { destruct (o_checked o); [inv Hv; reflexivity|now apply (validate_kget r v r1 v1)]. }
-  assert (Ev : erase_t v1 = erase_t v).
-  { destruct (o_checked o); [inv Hv; reflexivity|now apply (validate_ok r v r1 v1)]. }
-  assert (Hother : forall x k', k' <> k -> kget (fset A (r_f A r1) k x) k' = kget (r_f A r) k').
-  { intros x k' Hne. rewrite kget_fset. destruct (String.eqb k' k) eqn:E; [apply String.eqb_eq in E; congruence|apply Hk]. }
-  assert (Hsame : forall x, kget (fset A (r_f A r1) k x) k = Some (kind_of A x)).
-  { intro x. rewrite kget_fset, String.eqb_refl. now destruct (kget (r_f A r1) k). }
-  destruct (o_inplace o) eqn:Ei.
-  - destruct (fget A (r_f A r) k) as [d|] eqn:Ed.
-    + destruct d as [s x|od dp dm|od dm df].
-      * destruct v1 as [s1 x1| |]; try discriminate. inv H. cbn [r_f]. split; [apply Hother|].
-        intros _ d Hd. inv Hd. split; [rewrite Hsame; reflexivity|discriminate].
-      * destruct v1 as [s1 x1|ov vp vm|]; try discriminate. { destruct s1; discriminate. }
-        destruct (m_lock dm); [discriminate|]. inv H. cbn [r_f]. split; [apply Hother|].
-        intros _ d Hd. inv Hd. split; [rewrite Hsame; reflexivity|]. intros _. rewrite <- Ev. reflexivity.
-      * destruct v1 as [| |ov vm vf]; try discriminate.
-        destruct od as [a|]; [|discriminate]. destruct ov as [b|]; [|discriminate].
-        destruct (Z.eqb a b); [|discriminate]. inv H. cbn [r_f]. split; [apply Hother|].
-        intros _ d Hd. inv Hd. split; [rewrite Hsame; reflexivity|discriminate].
-    + destruct (m_lock (r_meta A r1)); [discriminate|]. inv H. cbn [r_f]. split; [apply Hother|].
-      intros _ d Hd. discriminate.
-  - destruct (m_lock (r_meta A r1)); [discriminate|]. inv H. cbn [r_f]. split; [apply Hother|]. discriminate.
-Qed.
-
-
 (* ------------------------------------------------------------------ operands: the model's list vs the reference's *)
-(* an operand of the model is the operand of the reference, or — where the reference has none — the stand-in
-   self.empty(recurse=True), in which no key of the level at hand is found *)
-Definition orel (K : list string) (m : tree) (s : option tree) : Prop :=
+(* an operand of the model is the operand of the reference, or — where the reference has none — the empty stand-in
+   item.empty(), in which no key is found *)
+Definition orel (m : tree) (s : option tree) : Prop :=
   match s with
   | Some t => m = t
-  | None => exists ob mm pf, m = Node ob mm pf /\ forall k, In k K -> fget A pf k = None
+  | None => exists ob mm, m = Node ob mm FNil
   end.
 
-Lemma others_leaf_rel K others ops k args :
-  Forall2 (orel K) others ops -> In k K ->
+Lemma others_leaf_rel others ops k args :
+  Forall2 orel others ops ->
   others_leaf A (o_default o) others k = Ok args -> entries_of A o ops k = ROk args.
 Proof.
-  intros HF Hk. revert args. induction HF as [|m s ms ss Hms HF IH]; intros args H; cbn [others_leaf entries_of] in *.
+  intros HF. revert args. induction HF as [|m s ms ss Hms HF IH]; intros args H; cbn [others_leaf entries_of] in *.
   - now inv H.
   - apply bind_ok in H. destruct H as (x & Hx & H).
     destruct s as [t|]; cbn [orel] in Hms.
@@ -185,31 +119,29 @@ Proof.
       destruct (fget A f k) as [e|].
       * apply bind_ok in H. destruct H as (l & Hl & H). inv H. now rewrite (IH l Hl).
       * destruct (o_default o); [|discriminate]. apply bind_ok in H. destruct H as (l & Hl & H). inv H. now rewrite (IH l Hl).
-    + destruct Hms as (ob & mm & pf & -> & Hpf). cbn [oget] in Hx. inv Hx. rewrite (Hpf k Hk) in H. cbn [entry_of rbind].
+    + destruct Hms as (ob & mm & ->). cbn [oget fget] in Hx. inv Hx. cbn [entry_of rbind].
       destruct (o_default o); [|discriminate]. apply bind_ok in H. destruct H as (l & Hl & H). inv H. now rewrite (IH l Hl).
 Qed.
 
-Lemma others_node_rel K K' cm cf others ops k others' :
-  Forall2 (orel K) others ops -> In k K ->
-  (o_default o = true -> forall k', In k' K' -> fget A (skel A cf) k' = None) ->
-  others_node A (o_default o) cm cf others k = Ok others' ->
-  exists es, entries_of A o ops k = ROk es /\ Forall2 (orel K') others' es.
+Lemma others_node_rel sub others ops k others' :
+  Forall2 orel others ops ->
+  others_node A (o_default o) sub others k = Ok others' ->
+  exists es, entries_of A o ops k = ROk es /\ (orel sub None -> Forall2 orel others' es).
 Proof.
-  intros HF Hk Hsk. revert others'. induction HF as [|m s ms ss Hms HF IH]; intros others' H; cbn [others_node entries_of] in *.
+  intros HF. revert others'. induction HF as [|m s ms ss Hms HF IH]; intros others' H; cbn [others_node entries_of] in *.
   - inv H. exists []. split; [reflexivity|constructor].
   - apply bind_ok in H. destruct H as (x & Hx & H).
     assert (Hcase : entry_of A s k = ROk x).
     { destruct s as [t|]; cbn [orel] in Hms.
       - subst m. destruct t as [| |ob mm f]; cbn [oget] in Hx; try discriminate. now inv Hx.
-      - destruct Hms as (ob & mm & pf & -> & Hpf). cbn [oget] in Hx. inv Hx. now rewrite (Hpf k Hk). }
+      - destruct Hms as (ob & mm & ->). cbn [oget fget] in Hx. now inv Hx. }
     rewrite Hcase. cbn [rbind].
     destruct x as [t|].
     + apply bind_ok in H. destruct H as (l & Hl & H). inv H. destruct (IH l Hl) as (es & E1 & E2).
-      rewrite E1. cbn [rbind]. eexists. split; [reflexivity|]. constructor; [reflexivity|exact E2].
+      rewrite E1. cbn [rbind]. eexists. split; [reflexivity|]. intro Hs. constructor; [reflexivity|now apply E2].
     + destruct (o_default o) eqn:Ed; [|discriminate].
       apply bind_ok in H. destruct H as (l & Hl & H). inv H. destruct (IH l Hl) as (es & E1 & E2).
-      rewrite E1. cbn [rbind]. eexists. split; [reflexivity|]. constructor; [|exact E2].
-      cbn [orel]. do 3 eexists. split; [reflexivity|]. now apply Hsk.
+      rewrite E1. cbn [rbind]. eexists. split; [reflexivity|]. intro Hs. constructor; [exact Hs|now apply E2].
 Qed.
 
 (* ------------------------------------------------------------------ the object that is written *)
@@ -218,24 +150,20 @@ Definition cur_out (out : option tree) (acc : option racc) : option tree :=
   match out, acc with Some _, Some a => if o_inplace o then out else Some (acc_tree A a) | _, _ => out end.
 Definition out_rel (out : option tree) (acc : option racc) (sout : option (stree A)) (K : list string) : Prop :=
   forall k x, In k K -> out_child A (cur_out out acc) k = Ok x -> option_map erase_t x = sout_child A sout k.
-Definition inv_inplace (sf : forest) (acc : option racc) : Prop :=
-  o_inplace o = true -> exists a, acc = Some a /\ forall k, kget (r_f A a) k = kget sf k.
 
 Lemma level_init_ok so sm sf out init :
   level_init A o so sm sf out = Ok init ->
   eacc init = sbase A o sf (if o_inplace o then None else option_map erase_t out)
-  /\ inv_inplace sf init
   /\ (out <> None -> init <> None)
   /\ (o_inplace o = false -> forall K, out_rel out init (option_map erase_t out) K).
 Proof.
-  unfold level_init, sbase, inv_inplace, out_rel, cur_out. destruct (o_inplace o) eqn:Ei.
-  - intro H. inv H. cbn [eacc r_f]. repeat split; try discriminate. intros _. eexists. split; [reflexivity|reflexivity].
+  unfold level_init, sbase, out_rel, cur_out. destruct (o_inplace o) eqn:Ei.
+  - intro H. inv H. cbn [eacc r_f]. repeat split; try discriminate.
   - destruct out as [[| |oo om og]|]; try discriminate.
     + destruct (m_lock om); [discriminate|].
       destruct (match o_bs o with Some b => negb (list_eqb Nat.eqb b (m_bs om)) | None => false end); [discriminate|].
-      assert (Hfin : forall a, erase_f (r_f A a) = erase_f og -> 
+      assert (Hfin : forall a, erase_f (r_f A a) = erase_f og ->
                 eacc (Some a) = match option_map erase_t (Some (Node oo om og)) with Some (SNode _ f) => f | _ => SNil A end
-                /\ (false = true -> exists a0, Some a = Some a0 /\ forall k, kget (r_f A a0) k = kget sf k)
                 /\ (Some (Node oo om og) <> None -> Some a <> None)
                 /\ (false = false -> forall K k x, In k K -> out_child A (Some (acc_tree A a)) k = Ok x ->
                       option_map erase_t x = sout_child A (option_map erase_t (Some (Node oo om og))) k)).
@@ -249,7 +177,6 @@ Proof.
     + intro H. inv H. cbn [eacc option_map]. repeat split; try discriminate; try congruence.
       intros _ K k x _ Hx. cbn [out_child] in Hx. inv Hx. reflexivity.
 Qed.
-
 
 Lemma sget_sset_other : forall (f : sforest A) k k' v, k <> k' -> sget A (sset A f k' v) k = sget A f k.
 Proof.
@@ -266,12 +193,6 @@ Lemma out_child_erase (oo : option tree) k x :
 Proof.
   destruct oo as [[| |ob m f]|]; cbn [out_child oget]; try discriminate; intro H; inv H; [|reflexivity].
   cbn [option_map]. rewrite erase_t_node. cbn [sout_child]. apply erase_fget.
-Qed.
-
-Lemma fget_in_keys (f : forest) k t : fget A f k = Some t -> In k (fkeys A f).
-Proof.
-  intro H. destruct (in_dec string_dec k (fkeys A f)) as [Hin|Hn]; [exact Hin|].
-  apply fget_none_notin in Hn. congruence.
 Qed.
 
 (* the end of a level: filter_empty, then the (lazily created) result *)
@@ -313,60 +234,41 @@ Proof.
     apply H'; [now right|]. destruct acc; reflexivity.
 Qed.
 
-
 (* ------------------------------------------------------------------ the loop over the items of one level *)
 Definition P_items (items : forest) : Prop :=
   forall con prefix sm sf others ops out sout names acc any res any',
-    (forall k, In k (fkeys A items) -> fget A sf k = fget A items k) ->
     nodup_str (fkeys A items) = true -> wf_sub A items = true ->
-    (o_default o = true -> nohit_in A (fkeys A sf) items = true) ->
-    Forall2 (orel (fkeys A sf)) others ops ->
+    Forall2 orel others ops ->
     out_rel out acc sout (fkeys A items) ->
-    inv_inplace sf acc -> (out <> None -> acc <> None) ->
+    (out <> None -> acc <> None) ->
     apply_items A o fn con prefix sm sf others out names items acc any = Ok (res, any') ->
     exists kept,
       ref_items A o fn con prefix ops sout items = ROk kept
       /\ eacc res = write_all A (eacc acc) kept
       /\ any' = (any || negb (nil_b kept))
-      /\ inv_inplace sf res /\ (acc <> None -> res <> None).
-
-(* what one item contributes, related to what the reference says it contributes *)
-Definition contrib_rel (acc1 : racc) (k : string) (t : option tree) (rs : option (stree A)) : Prop :=
-  match t, rs with
-  | None, None => True
-  | Some v, Some X => forall acc', set_item A o acc1 k v = Ok acc' -> erase_t v = X
-  | _, _ => False
-  end.
+      /\ (acc <> None -> res <> None).
 
 Lemma P_nil : P_items FNil.
 Proof.
-  intros con prefix sm sf others ops out sout names acc any res any' _ _ _ _ _ _ Hinv _ H.
+  intros con prefix sm sf others ops out sout names acc any res any' _ _ _ _ _ H.
   cbn [apply_items] in H. inv H. exists []. cbn [ref_items write_all nil_b negb]. rewrite orb_false_r. auto.
 Qed.
 
 Lemma P_cons k item rest :
   match item with Node _ _ g => P_items g | _ => True end -> P_items rest -> P_items (FCons k item rest).
 Proof.
-  intros IHt IHr con prefix sm sf others ops out sout names acc any res any' Htail Hnd Hwf Hhit HF Hout Hinv Hoa H.
+  intros IHt IHr con prefix sm sf others ops out sout names acc any res any' Hnd Hwf HF Hout Hoa H.
   cbn [fkeys nodup_str] in Hnd. apply andb_true_iff in Hnd. destruct Hnd as [Hnk Hnd]. apply negb_true_iff in Hnk.
   assert (Hnin : ~ In k (fkeys A rest)). { intro Hi. apply (mem_str_in) in Hi. congruence. }
-  assert (Hsfk : fget A sf k = Some item).
-  { rewrite (Htail k); [|now left]. cbn [fget]. now rewrite String.eqb_refl. }
-  assert (HkK : In k (fkeys A sf)) by (eapply fget_in_keys; exact Hsfk).
-  assert (Htail' : forall k', In k' (fkeys A rest) -> fget A sf k' = fget A rest k').
-  { intros k' Hk'. rewrite (Htail k'); [|now right]. cbn [fget].
-    destruct (String.eqb k' k) eqn:E; [apply String.eqb_eq in E; subst; contradiction|reflexivity]. }
   assert (Hout' : out_rel out acc sout (fkeys A rest)).
   { intros k' x Hk'. apply Hout. now right. }
   cbn [wf_sub] in Hwf. apply andb_true_iff in Hwf. destruct Hwf as [Hwfi Hwfr].
-  assert (Hhit' : o_default o = true -> nohit_in A (fkeys A sf) rest = true).
-  { intro Hd. specialize (Hhit Hd). cbn [nohit_in] in Hhit. apply andb_true_iff in Hhit. tauto. }
   set (acc1 := match acc with Some a => a | None => make_result A o sm names end).
   assert (Hacc1 : acc = Some acc1 \/ acc = None). { unfold acc1. destruct acc; auto. }
   assert (Eacc1 : eacc (Some acc1) = eacc acc). { unfold acc1. destruct acc; reflexivity. }
   (* the continuation, once the contribution of the item is known *)
-  assert (Hcont : forall t rs,
-            contrib_rel acc1 k t rs ->
+  assert (Hcont : forall (t : option tree) (rs : option (stree A)),
+            option_map erase_t t = rs ->
             (match t with
              | Some v => bind (set_item A o acc1 k v) (fun acc' =>
                          apply_items A o fn con prefix sm sf others out names rest (Some acc') true)
@@ -377,32 +279,22 @@ Proof.
                  ROk (match v with Some x => (k, x) :: kept | None => kept end))) = ROk kept
               /\ eacc res = write_all A (eacc acc) kept
               /\ any' = (any || negb (nil_b kept))
-              /\ inv_inplace sf res /\ (acc <> None -> res <> None)).
-  { intros t rs Hc Hrun. cbn [rbind]. destruct t as [v|]; destruct rs as [X|]; cbn [contrib_rel] in Hc; try contradiction.
+              /\ (acc <> None -> res <> None)).
+  { intros t rs Hc Hrun. cbn [rbind]. subst rs. destruct t as [v|]; cbn [option_map].
     - apply bind_ok in Hrun. destruct Hrun as (acc' & Hset & Hrun).
-      specialize (Hc acc' Hset).
       destruct (set_item_ok acc1 k v acc' Hset) as (E & _ & _).
-      destruct (set_item_kind acc1 k v acc' Hset) as (Kother & Ksame).
-      assert (Hinv' : inv_inplace sf (Some acc')).
-      { intro Hi. destruct (Hinv Hi) as (a & Ea & Ka). eexists. split; [reflexivity|]. intro k'.
-        assert (acc1 = a) by (unfold acc1; rewrite Ea; reflexivity). subst a.
-        destruct (string_dec k' k) as [->|Hne].
-        - destruct (fget A (r_f A acc1) k) as [d|] eqn:Ed.
-          + destruct (Ksame Hi d eq_refl) as [K1 _]. rewrite K1. rewrite <- Ka. unfold kget. now rewrite Ed.
-          + exfalso. specialize (Ka k). unfold kget in Ka. rewrite Ed, Hsfk in Ka. discriminate.
-        - rewrite Kother by exact Hne. apply Ka. }
       assert (Hout2 : out_rel out (Some acc') sout (fkeys A rest)).
       { apply (out_rel_step out acc acc1 sout k (fkeys A rest) v acc'); assumption. }
       assert (Hoa2 : out <> None -> Some acc' <> None) by discriminate.
-      destruct (IHr con prefix sm sf others ops out sout names (Some acc') true res any' Htail' Hnd Hwfr Hhit' HF Hout2 Hinv' Hoa2 Hrun)
-        as (kept & R1 & R2 & R3 & R4 & R5).
+      destruct (IHr con prefix sm sf others ops out sout names (Some acc') true res any' Hnd Hwfr HF Hout2 Hoa2 Hrun)
+        as (kept & R1 & R2 & R3 & R5).
       rewrite R1. cbn [rbind]. eexists. split; [reflexivity|]. cbn [write_all nil_b negb].
-      rewrite R2. cbn [eacc]. rewrite E, <- Hc. change (erase_f (r_f A acc1)) with (eacc (Some acc1)). rewrite Eacc1.
-      repeat split; try assumption.
+      rewrite R2. cbn [eacc]. rewrite E. change (erase_f (r_f A acc1)) with (eacc (Some acc1)). rewrite Eacc1.
+      repeat split.
       + rewrite orb_true_r. exact R3.
       + intros _. apply R5. discriminate.
-    - destruct (IHr con prefix sm sf others ops out sout names acc any res any' Htail' Hnd Hwfr Hhit' HF Hout' Hinv Hoa Hrun)
-        as (kept & R1 & R2 & R3 & R4 & R5).
+    - destruct (IHr con prefix sm sf others ops out sout names acc any res any' Hnd Hwfr HF Hout' Hoa Hrun)
+        as (kept & R1 & R2 & R3 & R5).
       rewrite R1. cbn [rbind]. eexists. split; [reflexivity|]. auto. }
   cbn [apply_items] in H. cbn [ref_items].
   apply bind_ok in H. destruct H as (t & Htr & Hrun).
@@ -411,74 +303,42 @@ Proof.
     apply andb_true_iff in Edisp. destruct Edisp as [Ec El]. apply negb_true_iff in Ec, El. rewrite Ec, El. cbn [orb].
     apply bind_ok in Htr. destruct Htr as (others' & Hon & Htr).
     apply bind_ok in Htr. destruct Htr as (out_k & Hok & Htr).
-    set (cur := match acc with Some a => if o_inplace o then a else mkAcc A New sm sf | None => mkAcc A New sm sf end) in Hon.
-    assert (Hcurkeys : forall k', fget A sf k' = None -> fget A (r_f A cur) k' = None).
-    { intros k' Hn. unfold cur. destruct acc as [a|]; [|exact Hn]. destruct (o_inplace o) eqn:Ei; [|exact Hn].
-      destruct (Hinv Ei) as (a' & Ea & Ka). inv Ea. specialize (Ka k'). unfold kget in Ka. rewrite Hn in Ka.
-      destruct (fget A (r_f A a') k'); [discriminate|reflexivity]. }
     assert (Hok' : option_map erase_t out_k = sout_child A sout k).
     { apply (Hout k out_k); [now left|]. exact Hok. }
+    destruct (others_node_rel (stand_in A item) others ops k others' HF Hon) as (es & Ees & HF').
+    rewrite Ees. cbn [rbind].
     destruct item as [s v|io d im|io im g].
     + discriminate.
     + (* a non-tensor entry *)
-      destruct (others_node_rel (fkeys A sf) [] (r_meta A cur) (r_f A cur) others ops k others' HF HkK) as (es & Ees & _).
-      { intros _ k' []. } { exact Hon. }
-      rewrite Ees. cbn [rbind]. inv Htr.
-      assert (Hrel : contrib_rel acc1 k (Some (nont_apply A o d im out_k))
-                 (Some (match (if o_inplace o then None else sout_child A sout k) with Some x => x | None => SNonT A end)));
-        [|pose proof (Hcont _ _ Hrel Hrun) as HC; cbn [rbind] in HC; exact HC].
-      cbn [contrib_rel]. intros acc' Hset. unfold nont_apply.
-      destruct (o_inplace o) eqn:Ei.
-      * destruct (Hinv Ei) as (a & Ea & Ka). assert (Ha1 : a = acc1) by (unfold acc1; rewrite Ea; reflexivity).
-        rewrite Ha1 in Ka. specialize (Ka k). unfold kget in Ka. rewrite Hsfk in Ka. cbn [option_map kind_of] in Ka.
-        destruct (fget A (r_f A acc1) k) as [dd|] eqn:Edd; [|discriminate]. cbn [option_map] in Ka. injection Ka as Kk.
-        destruct (set_item_kind acc1 k _ acc' Hset) as (_ & Ksame). destruct (Ksame Ei dd Edd) as [_ K2]. now apply K2.
-      * rewrite <- Hok'. destruct out_k; reflexivity.
+      inv Htr.
+      pose proof (Hcont (Some (nont_apply A o d im out_k)) (Some (SNonT A)) eq_refl Hrun) as HC. cbn [rbind] in HC. exact HC.
     + (* a nested tensordict *)
       cbn [wf_sub] in Hwfi. apply andb_true_iff in Hwfi. destruct Hwfi as [Hndg Hwfg].
-      destruct (others_node_rel (fkeys A sf) (fkeys A g) (r_meta A cur) (r_f A cur) others ops k others' HF HkK) as (es & Ees & HF').
-      { intros Hd k' Hk'. specialize (Hhit Hd). cbn [nohit_in] in Hhit. apply andb_true_iff in Hhit. destruct Hhit as [Hhit _].
-        apply andb_true_iff in Hhit. destruct Hhit as [Hdis _].
-        pose proof (disjoint_str_spec _ _ Hdis k' Hk') as Hno.
-        apply fget_none_notin. intro Hin. apply fkeys_skel_incl in Hin. apply fget_none_notin in Hin; [exact Hin|].
-        apply Hcurkeys. now apply fget_none_notin. }
-      { exact Hon. }
-      rewrite Ees. cbn [rbind].
+      assert (HFg : Forall2 orel others' es). { apply HF'. cbn [stand_in orel]. eauto. }
       apply bind_ok in Htr. destruct Htr as (init & Hinit & Htr).
       apply bind_ok in Htr. destruct Htr as ([resn anyn] & Hnest & Htr). cbn [fst snd] in Htr. inv Htr.
-      destruct (level_init_ok io im g out_k init Hinit) as (Ebase & Hinvn & Hoan & Houtn).
+      destruct (level_init_ok io im g out_k init Hinit) as (Ebase & Hoan & Houtn).
       assert (Houtrel : out_rel out_k init (sout_child A sout k) (fkeys A g)).
       { destruct (o_inplace o) eqn:Ei.
         - intros k' x _ Hx. rewrite <- Hok'. apply out_child_erase.
           unfold cur_out in Hx. rewrite Ei in Hx. destruct out_k; [destruct init|]; exact Hx.
         - rewrite <- Hok'. now apply Houtn. }
-      assert (Hhitg : o_default o = true -> nohit_in A (fkeys A g) g = true).
-      { intro Hd. specialize (Hhit Hd). cbn [nohit_in] in Hhit. apply andb_true_iff in Hhit. destruct Hhit as [Hhit _].
-        apply andb_true_iff in Hhit. tauto. }
       destruct (IHt false (prefix ++ [k])%list im g others' es out_k (sout_child A sout k) None init false resn anyn)
-        as (keptn & N1 & N2 & N3 & _ & _); try assumption.
-      { reflexivity. }
+        as (keptn & N1 & N2 & N3 & _); try assumption.
       rewrite N1. cbn [rbind].
       pose proof (level_finish_spec im g None init resn anyn keptn _ Ebase N2 N3) as Hfin.
       rewrite Hok' in Hfin.
-      assert (Hrel : contrib_rel acc1 k (level_finish A o im g None resn anyn)
-                 (if dropped A o g keptn then None
-                  else Some (SNode A (write_all A (sbase A o g (if o_inplace o then None else sout_child A sout k)) keptn))));
-        [|pose proof (Hcont _ _ Hrel Hrun) as HC; cbn [rbind] in HC; exact HC].
-      destruct (level_finish A o im g None resn anyn) as [vres|]; cbn [option_map] in Hfin.
-      * destruct (dropped A o g keptn); [discriminate|]. injection Hfin as Hfin'. cbn [contrib_rel]. intros _ _. exact Hfin'.
-      * destruct (dropped A o g keptn); [|discriminate]. exact I.
+      pose proof (Hcont _ _ Hfin Hrun) as HC. cbn [rbind] in HC. exact HC.
   - (* fn is called on the item *)
     assert (Ecl : con || o_is_leaf o (kind_of A item) = true).
     { destruct con; [reflexivity|]. cbn [negb andb] in Edisp. apply negb_false_iff in Edisp. exact Edisp. }
     rewrite Ecl.
     apply bind_ok in Htr. destruct Htr as (args & Hol & Htr). inv Htr.
-    rewrite (others_leaf_rel (fkeys A sf) others ops k args HF HkK Hol). cbn [rbind].
-    assert (Hrel : contrib_rel acc1 k (option_map (fun a => Leaf New (VNew a)) (fn (keyarg o prefix k) item args))
-               (option_map (fun a => SLeaf A (SNew A a)) (fn (keyarg o prefix k) item args)));
-      [|pose proof (Hcont _ _ Hrel Hrun) as HC; cbn [rbind] in HC; exact HC].
-    destruct (fn (keyarg o prefix k) item args); cbn [option_map contrib_rel]; [|exact I].
-    intros _ _. reflexivity.
+    rewrite (others_leaf_rel others ops k args HF Hol). cbn [rbind].
+    assert (Hrel : option_map erase_t (option_map (fun a => Leaf New (VNew a)) (fn (keyarg o prefix k) item args))
+                   = option_map (fun a => SLeaf A (SNew A a)) (fn (keyarg o prefix k) item args)).
+    { destruct (fn (keyarg o prefix k) item args); reflexivity. }
+    pose proof (Hcont _ _ Hrel Hrun) as HC. cbn [rbind] in HC. exact HC.
 Qed.
 
 Theorem items_spec : forall items, P_items items.
@@ -491,32 +351,28 @@ Proof.
   - intros k t IHt r IHr. now apply P_cons.
 Qed.
 
-
-Lemma orel_refl K (l : list tree) : Forall2 (orel K) l (map Some l).
+Lemma orel_refl (l : list tree) : Forall2 orel l (map Some l).
 Proof. induction l; cbn [map]; constructor; [reflexivity|assumption]. Qed.
 
 (* apply_spec: for every tree that is a dict (no key twice), every list of other operands, every out=, every point of
-   the option lattice and every function: if the call returns, it returns what the reference says (None included).
-   With default= the tree must not reuse a key of a level inside a nested tensordict of that level (C20-b). *)
+   the option lattice and every function: if the call returns, it returns what the reference says (None included). *)
 Theorem apply_spec : forall con propagate so sm sf others out names r,
   wf_keys A sf = true ->
-  (o_default o = true -> nohit A sf = true) ->
   front A o fn con propagate (Node so sm sf) others out names = Ok r ->
   ref_apply A o fn con (Node so sm sf) others out = ROk (option_map erase_t r).
 Proof.
-  intros con propagate so sm sf others out names r Hwf Hhit H.
+  intros con propagate so sm sf others out names r Hwf H.
   unfold wf_keys in Hwf. apply andb_true_iff in Hwf. destruct Hwf as [Hnd Hwf].
   cbn [front] in H. apply bind_ok in H. destruct H as (r0 & Hnest & H).
   unfold apply_nest in Hnest. apply bind_ok in Hnest. destruct Hnest as (init & Hinit & Hnest).
   apply bind_ok in Hnest. destruct Hnest as ([res any'] & Hitems & Hfin). cbn [fst snd] in Hfin.
-  destruct (level_init_ok so sm sf out init Hinit) as (Ebase & Hinv & Hoa & Hout).
+  destruct (level_init_ok so sm sf out init Hinit) as (Ebase & Hoa & Hout).
   assert (Houtrel : out_rel out init (option_map erase_t out) (fkeys A sf)).
   { destruct (o_inplace o) eqn:Ei.
     - intros k x _ Hx. apply out_child_erase. unfold cur_out in Hx. rewrite Ei in Hx. destruct out; [destruct init|]; exact Hx.
     - now apply Hout. }
   destruct (items_spec sf con [] sm sf others (map Some others) out (option_map erase_t out) names init false res any')
-    as (kept & R1 & R2 & R3 & _ & _); try assumption.
-  - reflexivity.
+    as (kept & R1 & R2 & R3 & _); try assumption.
   - apply orel_refl.
   - cbn [ref_apply]. rewrite R1. cbn [rbind]. cbn [orb] in R3.
     pose proof (level_finish_spec sm sf names init res any' kept _ Ebase R2 R3) as Hf.
